@@ -588,6 +588,14 @@ func (s *State) evalBuiltin(node *ast.Builtin) object.Object {
 	// (print, log and error evaluate all their arguments themselves, in evalPrintLogError)
 	if minV > 0 && t != token.PRINT && t != token.LOG && t != token.ERROR {
 		val = s.evalInternal(node.Parameters[0])
+		if rv, ok := val.(object.ReturnValue); ok {
+			// a return/break/continue inside the argument: as for call arguments (evalExpressions), not a control
+			// object handed on as a value (catch() stored it and == panicked on it).
+			val = rv.Value
+			if rv.ControlType != token.RETURN {
+				val = s.Errorf("unexpected control type %v outside of for loops", rv.ControlType)
+			}
+		}
 		rt = val.Type()
 		if rt == object.ERROR && t != token.LOG && t != token.CATCH { // log can log (and thus catch) errors.
 			return val
